@@ -164,6 +164,64 @@ def class_universe():
     return out
 
 
+def every_class():
+    """every class defined in any importable module of the mindsdb_sql package (introspection), so that a
+    new or moved `__eq__` / `__hash__` / copy hook cannot stay outside the probed list"""
+    import importlib, inspect, pkgutil
+    import mindsdb_sql
+    out, seen = [], set()
+    for mi in pkgutil.walk_packages(mindsdb_sql.__path__, 'mindsdb_sql.'):
+        try:
+            mod = importlib.import_module(mi.name)
+        except Exception:
+            continue
+        for _, c in inspect.getmembers(mod, inspect.isclass):
+            if getattr(c, '__module__', '').startswith('mindsdb_sql') and c not in seen:
+                seen.add(c)
+                out.append(c)
+    return out
+
+
+def call_eq(a, b):
+    try:
+        r = a.__eq__(b)
+    except Exception:
+        return 'raises'
+    return {True: 'true', False: 'false', None: 'none'}.get(r, 'raises') if isinstance(r, (bool, type(None))) else 'raises'
+
+
+def probe_eq_rows():
+    """fixed battery of plan / step pairs on the real classes -> rows for the Lean obligations planRowsOk / stepRowsOk.
+    plans: step tokens s (and an equal fresh copy), t, u; steps: attribute values are token lists (scalar = one token)"""
+    from mindsdb_sql.parser.ast import Identifier
+    from mindsdb_sql.planner.query_plan import QueryPlan
+    from mindsdb_sql.planner.step_result import Result
+    from mindsdb_sql.planner.steps import ProjectStep, FetchDataframeStep, MultipleSteps
+    mk = {'s': lambda: ProjectStep(columns=[Identifier('a')], dataframe=Result(0), step_num=0),
+          't': lambda: FetchDataframeStep(integration='int1', query=None, step_num=1),
+          'u': lambda: ProjectStep(columns=[Identifier('b')], dataframe=Result(0), step_num=0)}
+
+    def plan(toks):
+        p = QueryPlan()
+        p.steps = [mk[x]() for x in toks]
+        return p
+    cases = [('', ''), ('', 's'), ('s', ''), ('s', 's'), ('s', 'u'), ('s', 'st'), ('st', 's'), ('st', 'st'), ('st', 'ts'),
+             ('st', 'su'), ('sts', 'st'), ('', 'st'), ('t', 'st')]
+    plan_rows = [(list(a), list(b), True, call_eq(plan(a), plan(b))) for a, b in cases]
+    plan_rows += [(list('s'), [], False, call_eq(plan('s'), [mk['s']()])), ([], [], False, call_eq(plan(''), None))]
+
+    def ms(toks, reduce=None):
+        return MultipleSteps(steps=[mk[x]() for x in toks], reduce=reduce, step_num=3)
+    step_rows = []
+    for a, b in [('', ''), ('', 's'), ('s', ''), ('s', 's'), ('s', 'st'), ('st', 's'), ('st', 'ts'), ('st', 'st'), ('su', 'st')]:
+        row = lambda x: [('step_num', ['3']), ('steps', list(x)), ('reduce', ['None'])]
+        step_rows.append(('MultipleSteps', row(a), 'MultipleSteps', row(b), call_eq(ms(a), ms(b))))
+    step_rows.append(('MultipleSteps', [('step_num', ['3']), ('steps', ['s']), ('reduce', ['None'])],
+                      'ProjectStep', [('step_num', ['0']), ('columns', ['a']), ('dataframe', ['r0']), ('ignore_doubles', ['False'])],
+                      call_eq(ms('s'), mk['s']())))
+    return plan_rows, step_rows
+
+
 def probe_eq():
     from mindsdb_sql.planner.query_plan import QueryPlan
     from mindsdb_sql.planner.step_result import Result
@@ -190,13 +248,22 @@ def main(gen_lean, gen_json):
     rows, counts = probe_rows(trees)
     hook = probe_hook()
     uni = class_universe()
-    custom = sorted(c.__name__ for c in uni if any(m in vars(c) for m in COPY_PROTOCOL))
-    eqdefs = sorted((c.__name__, sorted(m for m in ('__eq__', '__ne__', '__hash__') if m in vars(c) and vars(c)[m] is not None))
-                    for c in uni if any(m in vars(c) and vars(c)[m] is not None for m in ('__eq__', '__ne__', '__hash__')))
+    custom = sorted(c.__name__ for c in list(dict.fromkeys(uni + every_class())) if any(m in vars(c) for m in COPY_PROTOCOL))
+    uni_all = list(dict.fromkeys(uni + every_class()))
+    import dataclasses
+
+    def eq_tag(c, m):
+        # a dataclass-generated __eq__ (field-tuple comparison of the standard library) is marked as such
+        gen = dataclasses.is_dataclass(c) and m == '__eq__' and getattr(c, '__dataclass_params__', None) is not None \
+            and c.__dataclass_params__.eq and '__eq__' in vars(c)
+        return m + '@dataclass' if gen else m
+    eqdefs = sorted((c.__name__, sorted(eq_tag(c, m) for m in ('__eq__', '__ne__', '__hash__') if m in vars(c) and vars(c)[m] is not None))
+                    for c in uni_all if any(m in vars(c) and vars(c)[m] is not None for m in ('__eq__', '__ne__', '__hash__')))
     from mindsdb_sql.parser.ast.base import ASTNode
     node_classes = sorted(c.__name__ for c in uni if issubclass(c, ASTNode))
     uncovered = sorted(set(node_classes) - set(counts))
     plan, hash_ok = probe_eq()
+    plan_rows, step_rows = probe_eq_rows()
     from mindsdb_sql.parser.utils import to_single_line
     sl_probe = [to_single_line(x) for x in (" a  `b  c`\n d ", "'x  y'", '"p\tq"  r')]
     sl_variant = {('a `b c` d', "'x y'", '"p q" r'): 'pinned', ('a `b  c` d', "'x  y'", '"p\tq" r'): 'fixed'}.get(tuple(sl_probe), 'unknown')
@@ -226,6 +293,14 @@ def main(gen_lean, gen_json):
             'def identKeyOrders : List (List String) := %s' % T.lean_list(lstr(o) for o in orders),
             'def singleLineVariant : String := %s' % json.dumps(sl_variant),
             'def planEqOnEqual : R := .%s' % plan,
+            '/-- QueryPlan.__eq__ on a fixed battery of real plans: (step tokens a, step tokens b, same type, result) -/',
+            'def planEqRows : List (List String × List String × Bool × R) := %s' % T.lean_list(
+                '(%s, %s, %s, .%s)' % (lstr(a), lstr(b), 'true' if st else 'false', r) for a, b, st, r in plan_rows),
+            '/-- PlanStep.__eq__ on a fixed battery of real steps with a list-valued attribute (values as token lists) -/',
+            'def stepEqRows : List (Step (List String) × Step (List String) × R) := %s' % T.lean_list(
+                '(⟨%s, %s⟩, ⟨%s, %s⟩, .%s)' % (json.dumps(ta), T.lean_list('(%s, %s)' % (json.dumps(k), lstr(v)) for k, v in ra),
+                                             json.dumps(tb), T.lean_list('(%s, %s)' % (json.dumps(k), lstr(v)) for k, v in rb), r)
+                for ta, ra, tb, rb, r in step_rows),
             'def resultHashOk : Bool := %s' % ('true' if hash_ok else 'false'),
             '/-- node classes no exemplar was found for (not produced by the parsers on the corpus) -/',
             'def uncovered : List String := %s' % lstr(uncovered),
